@@ -108,6 +108,16 @@ type World struct {
 	MaxSteps   int64
 	cur        *Task
 	thresh     int // scheduling: draws < thresh keep the current task
+	// priority policy (PCT-style): every task has a fixed pseudo-random
+	// priority derived from (prioSeed, task id); the highest-priority runnable
+	// task always runs; at a few tape-chosen steps the running task drops
+	// below everybody else. Finds orderings that need one task to be starved
+	// for a long stretch, which the coin-flip policies reach only rarely.
+	pct      bool
+	prioSeed uint64
+	changeAt []int64
+	demoted  map[*Task]int64
+	demoteN  int64
 	logHash    uint64
 	LogLines   []string // optional detailed log (replay diagnosis)
 	KeepLog    bool
@@ -515,7 +525,15 @@ func (w *World) Run(main func()) {
 	curWorld.Store(w)
 	w.start = time.Now()
 	// scheduling policy for this run
-	switch w.tape.Choose(SShape, 5) {
+	switch w.tape.Choose(SShape, 7) {
+	case 5, 6:
+		w.pct = true
+		w.prioSeed = uint64(w.tape.Choose(SShape, 1<<30)) + 1
+		w.demoted = map[*Task]int64{}
+		for k := w.tape.Choose(SShape, 4); k > 0; k-- {
+			w.changeAt = append(w.changeAt, int64(w.tape.Choose(SShape, 3000)))
+		}
+		w.thresh = 1000
 	case 0:
 		w.thresh = 1 // uniform among the others as soon as anything else can run
 	case 1:
@@ -588,9 +606,31 @@ func (w *World) Run(main func()) {
 		if len(run) > 1 {
 			w.multiReady++
 		}
-		c := w.tape.Choose(SSched, 1000)
+		c := 0
+		if !w.pct {
+			c = w.tape.Choose(SSched, 1000)
+		}
 		w.schedN++
-		if len(run) > 1 {
+		if w.pct {
+			for _, at := range w.changeAt {
+				if at == w.step && w.cur != nil {
+					w.demoteN++
+					w.demoted[w.cur] = w.demoteN
+				}
+			}
+			best := -1
+			var bestP uint64
+			for i, t := range run {
+				p := w.prio(t)
+				if best < 0 || p > bestP {
+					best, bestP = i, p
+				}
+			}
+			idx = best
+			if len(run) > 1 && (w.cur == nil || run[idx] != w.cur) {
+				w.preempts++
+			}
+		} else if len(run) > 1 {
 			curFirst := w.cur != nil && run[0] == w.cur
 			if curFirst {
 				if c >= w.thresh {
@@ -614,6 +654,21 @@ func (w *World) Run(main func()) {
 	w.endNS = int64(time.Since(w.start))
 	w.ended = true
 	w.kill()
+}
+
+// prio is the task's scheduling priority under the PCT-style policy: demoted
+// tasks rank below all others (the later the demotion, the lower).
+func (w *World) prio(t *Task) uint64 {
+	if n, ok := w.demoted[t]; ok {
+		return uint64(1<<20) - uint64(n)
+	}
+	h := w.prioSeed
+	for i := 0; i < len(t.ID); i++ {
+		h ^= uint64(t.ID[i])
+		h *= 1099511628211
+		h ^= h >> 29
+	}
+	return h | 1<<40
 }
 
 // runnableLocked returns runnable tasks sorted by id, the current task first.
